@@ -36,6 +36,17 @@ def jobs(tier):
                 out.append(Job("C07.latent-interval[{}/d{}/{}]".format(c, dd, ms), H, "ob_latent_interval", env=e2, timeout=900,
                                bounds="ts: every instant of one day of {} (day {}; -1 = last); all 24x24 hour pairs; minutes written: {}".format(c, dd, ms),
                                functions=[fn_id(PL._latent_time_interval), "dateutil.relativedelta (real)"], lift="lift_latent_interval", site="_latent_time_interval"))
+    import sys
+    import ctparse.ctparse  # noqa
+    CC = sys.modules["ctparse.ctparse"]
+    st = ["parser untraced; pool indices symbolic (solver covers every combination)"]
+    out.append(Job("C07.RANGES-API", "vq.harness.h_api2", "ob_ranges", timeout=3600, path_timeout=120,
+                   bounds="7x7 hour pairs x 6 joiner forms (-, to, bis, until, between..and, von..bis) x {no date, tomorrow, 12.03.2021, friday}: interval from A to B with the 12 h / next-day wrap (no depth limit); "
+                          "for 9:00..17:00 additionally 4 separator variants (blank, tab, newline, double blank) and an earlier parse of an incomplete range",
+                   functions=[fn_id(CC.ctparse)], stubs=st, site="ctparse"))
+    out.append(Job("C07.OPEN-API", "vq.harness.h_api2", "ob_open", timeout=1800, path_timeout=120,
+                   bounds="10 forms (before / until / bis / not before / nicht vor / after / from / ab / not after / nicht nach) x 7 hours x 4 separator variants: half-open interval bounded on the stated side only",
+                   functions=[fn_id(CC.ctparse)], stubs=st, site="ctparse"))
     return out
 
 
